@@ -125,6 +125,13 @@ pub enum Event {
     /// the signature message reaches the aggregator through the message queue instead of HTTP:
     /// payload = (signature, signed entity type), envelope identity = the party named on it
     DeliverDmq { id: u32, keep: bool },
+    /// several signature messages arrive in one answer of the DMQ node; at the positions in
+    /// `junk_at` (of the resulting batch) it also carries a message of another registered pool for
+    /// a beacon this aggregator has no round for (what a pool far ahead, or a confused one, sends).
+    /// Messages of an *unknown* signed entity type are not injected: the repository's wire decoder
+    /// (`RegisterSignatureMessageDmq::try_from_bytes`) never yields one, only a hand-written
+    /// consumer double can
+    DeliverDmqBatch { ids: Vec<u32>, junk_at: Vec<usize> },
     Drop { id: u32 },
     Expire,
     Restart,
@@ -183,6 +190,7 @@ impl Event {
             Event::Drop { .. } => "drop",
             Event::Expire => "expire",
             Event::DeliverDmq { .. } => "deliver-dmq",
+            Event::DeliverDmqBatch { .. } => "deliver-dmq-batch",
             Event::Restart => "restart",
             Event::Reconfigure { .. } => "reconfigure",
             Event::Genesis => "genesis",
@@ -256,6 +264,9 @@ pub struct Delivery {
     /// after the delivery (its `/epoch-settings`), i.e. the registration round then open is the
     /// one recording for this epoch + 1
     pub agg_service_epoch: Option<u64>,
+    /// delivered in a message-queue batch that also carried messages of other pools with an
+    /// unknown signed entity type
+    pub batch_junk: bool,
 }
 
 #[derive(Clone, Debug, Default)]
@@ -832,6 +843,7 @@ impl World {
                     body,
                     agg_epoch_view,
                     agg_service_epoch,
+                    batch_junk: false,
                 });
                 ok(note)
             }
@@ -867,7 +879,54 @@ impl World {
                 let note = format!("msg {id} -> dmq{}", err.as_ref().map(|e| format!(" ERR {}", first_line(e))).unwrap_or_default());
                 // the undamaged HTTP-form body stands for the payload in the delivery log
                 let body = msg.body.clone();
-                self.deliveries.push(Delivery { step: self.step, msg, damaged: false, status: 0, response: err.unwrap_or_default(), body, agg_epoch_view, agg_service_epoch: None });
+                self.deliveries.push(Delivery { step: self.step, msg, damaged: false, status: 0, response: err.unwrap_or_default(), body, agg_epoch_view, agg_service_epoch: None, batch_junk: false });
+                ok(note)
+            }
+            Event::DeliverDmqBatch { ids, junk_at } => {
+                use mithril_common::crypto_helper::ProtocolSingleSignature;
+                use mithril_common::messages::{RegisterSignatureMessageDmq, SignedEntityTypeMessage};
+                if !self.agg.is_up() {
+                    return skip("aggregator down");
+                }
+                let mut batch: Vec<(RegisterSignatureMessageDmq, String)> = vec![];
+                let mut delivered: Vec<Msg> = vec![];
+                for id in ids {
+                    let Some(msg) = self.inflight.get(id).cloned() else { continue };
+                    let MsgKind::Signature { entity, claimed, signature_hex, .. } = &msg.kind else { continue };
+                    let Ok(signature): Result<ProtocolSingleSignature, _> = signature_hex.clone().try_into() else { continue };
+                    batch.push((RegisterSignatureMessageDmq { signed_entity_type: entity.to_real().into(), signature }, claimed.clone()));
+                    self.inflight.remove(id);
+                    delivered.push(msg);
+                }
+                if batch.is_empty() {
+                    return skip("no such messages");
+                }
+                // messages for a beacon without a round: payload = some signature of the batch,
+                // sender = a registered pool other than that signature's
+                let mut junk = 0;
+                for (n, at) in junk_at.iter().enumerate() {
+                    let (template, owner) = batch[n % batch.len()].clone();
+                    let sender = self.parties.iter().map(|p| p.party_id.clone()).find(|p| *p != owner).unwrap_or(owner);
+                    let at = (*at).min(batch.len());
+                    let nowhere = mithril_common::entities::SignedEntityType::MithrilStakeDistribution(mithril_common::entities::Epoch(self.epoch + 7 + n as u64));
+                    batch.insert(at, (RegisterSignatureMessageDmq { signed_entity_type: SignedEntityTypeMessage::from(nowhere), signature: template.signature }, sender));
+                    junk += 1;
+                }
+                let size = batch.len();
+                let err = self.agg.dmq_deliver_batch(batch);
+                self.hit("ev_delivered_through_message_queue_batch");
+                if junk > 0 {
+                    self.hit("fault_dmq_batch_with_messages_for_beacons_without_round");
+                }
+                let agg_epoch_view = self.view_epoch();
+                let note = format!("{} messages ({junk} for beacons without a round) -> dmq{}", size, err.as_ref().map(|e| format!(" ERR {}", first_line(e))).unwrap_or_default());
+                for msg in delivered {
+                    if msg.created_epoch < self.epoch {
+                        self.hit("fault_message_delayed_across_epoch");
+                    }
+                    let body = msg.body.clone();
+                    self.deliveries.push(Delivery { step: self.step, msg, damaged: false, status: 0, response: err.clone().unwrap_or_default(), body, agg_epoch_view, agg_service_epoch: None, batch_junk: junk > 0 });
+                }
                 ok(note)
             }
             Event::Drop { id } => {
